@@ -62,6 +62,7 @@ class Sched:
         self.on_line = None  # optional callback(task, code, line) for probes / projections
         self.active = False
         self.force = False  # set by on_line: switch away from the running task at this very point (systematic section exploration)
+        self.change_points: set[int] = set()  # PCT-style: the only pre-emptions are at these step numbers; whoever is switched to keeps running
 
     # ---------------------------------------------------------------- task plumbing
     def add(self, fn) -> Task:
@@ -136,6 +137,13 @@ class Sched:
             nxt = next((x for x in self.tasks if x.idx == to and x.state == "runnable" and x is not t), None)
             if nxt is None:
                 return
+        elif self.change_points:
+            if self.step not in self.change_points:
+                return
+            cands = self._runnable(exclude=t)
+            if not cands:
+                return
+            nxt = cands[self.rng.randrange(len(cands))]
         else:
             p = self.p_line if kind == "line" else self.p_call
             if self.rng.random() >= p:
